@@ -37,9 +37,10 @@ import unittest
 from .recorders import next_seq
 
 BASE_KINDS = ("kbd", "exit", "kbdsub", "exitsub")
-FAILING = {"fail", "error", "failsub", "mismatch"} | set(BASE_KINDS)
+FAILING = {"fail", "error", "failsub", "mismatch", "eqexc", "sameobj"} | set(BASE_KINDS)
 
 KIND_OUTCOME = {
+    "eqexc": "addError", "sameobj": "addError",
     "fail": "addFailure", "failsub": "addFailure", "mismatch": "addFailure",
     "error": "addError", "skip": "addSkip", "skipsub": "addSkip",
     "xfail": "addExpectedFailure", "uxs": "addUnexpectedSuccess",
@@ -86,7 +87,24 @@ class CustomC(Exception):
     pass
 
 
-CUSTOM = {"CustomA": CustomA, "CustomB": CustomB, "CustomC": CustomC}
+class CustomFalsy(Exception):
+    """An exception object that happens to be falsy."""
+
+    def __len__(self):
+        return 0
+
+
+class EqExc(Exception):
+    """Exceptions that compare equal when their arguments do."""
+
+    def __eq__(self, other):
+        return type(other) is EqExc and self.args == other.args
+
+    def __hash__(self):
+        return hash(self.args)
+
+
+CUSTOM = {"CustomA": CustomA, "CustomB": CustomB, "CustomC": CustomC, "CustomFalsy": CustomFalsy}
 
 
 class Scratch:
@@ -98,6 +116,8 @@ class Scratch:
             object.__setattr__(self, k, v)
 
     def __setattr__(self, name, value):
+        if name == "prop":
+            return object.__setattr__(self, name, value)   # the property logs for itself
         self._env.log("scratch_set", name, value, self._env.in_patch)
         object.__setattr__(self, name, value)
 
@@ -105,8 +125,20 @@ class Scratch:
         self._env.log("scratch_del", name, self._env.in_patch)
         object.__delattr__(self, name)
 
+    # an attribute served by a data descriptor (patch() must restore it, not delete it)
+    @property
+    def prop(self):
+        return self.__dict__.get("_prop_value", "prop-default")
+
+    @prop.setter
+    def prop(self, value):
+        self._env.log("scratch_set", "prop", value, self._env.in_patch)
+        self.__dict__["_prop_value"] = value
+
     def snapshot(self):
-        return {k: v for k, v in self.__dict__.items() if k != "_env"}
+        d = {k: v for k, v in self.__dict__.items() if k not in ("_env", "_prop_value")}
+        d["prop"] = self.prop
+        return d
 
 
 class Env:
@@ -119,6 +151,7 @@ class Env:
         self.scratch = Scratch(self, dict(program.get("scratch", {})))
         self.onexc_calls = []   # (seq, hid, exc object)
         self.fixtures = {}
+        self.shared_exc = {}
 
     def log(self, tag, *data):
         self.events.append((next_seq(), tag) + data)
@@ -207,6 +240,11 @@ def _do_raise(env, case, action, constituent=False):
         raise note(MyExit(tok))
     if kind == "skipsub":
         raise note(MySkip(tok))
+    if kind == "eqexc":
+        raise note(EqExc(tok))          # tok is shared between several raises on purpose
+    if kind == "sameobj":
+        exc = env.shared_exc.setdefault(tok, ValueError(tok))
+        raise note(exc)                 # the very same exception object raised again
     if kind.startswith("custom:"):
         raise note(CUSTOM[kind[7:]](tok))
     if kind == "skip":
@@ -324,9 +362,16 @@ def run_actions(env, case, actions, where):
                                          lambda cell=cell: [env.cells[cell]]))
         elif op == "setcell":
             env.cells[a[1]] = bytes.fromhex(a[2])
+        elif op == "peek":
+            # somebody looks at the details collected so far (a handler dumping them, say)
+            for content_object in list(case.getDetails().values()):
+                try:
+                    list(content_object.iter_bytes())
+                except Exception:
+                    pass
         elif op == "patch":
-            had = a[1] in env.scratch.__dict__
-            old = env.scratch.__dict__.get(a[1])
+            had = a[1] in env.scratch.__dict__ or a[1] == "prop"
+            old = env.scratch.prop if a[1] == "prop" else env.scratch.__dict__.get(a[1])
             env.log("patch", a[1], had, old, a[2])
             env.in_patch = True
             try:
@@ -419,6 +464,7 @@ def build_case(program, env, runner_factory=None, default_result=None):
                 super().setUp()
             run_actions(env, self, program.get("su", []), "setUp")
             env.log("leave", "setUp")
+            return program.get("setup_returns")
 
         def test(self):
             env.log("enter", "test")
@@ -464,6 +510,8 @@ def build_case(program, env, runner_factory=None, default_result=None):
         Prog = testtools.skip(reason)(Prog)
     elif decor == "stdlib_skip_method":
         Prog.test = unittest.skip(reason)(Prog.test)
+    elif decor == "stdlib_expectedFailure":
+        Prog.test = unittest.expectedFailure(Prog.test)
     case = Prog("test")
     if program.get("force_attr") == "instance":
         case.force_failure = True
@@ -500,6 +548,9 @@ def execute(program, make_result=None, runner_factory=None, env=None, case=None,
         env = Env(program)
     if case is None:
         case = build_case(program, env, runner_factory, default_result)
+        if program.get("clone_id"):
+            from testtools.testcase import clone_test_with_new_id
+            case = clone_test_with_new_id(case, program["clone_id"])
     result = None if pass_none else make_result()
     propagated = None
     returned = None
